@@ -89,6 +89,8 @@ def o_file(a):
         over = dict(duration=a['duration'])
         if a.get('charging'):
             over.update(charging=True, chrgtstep=500.)
+        if a.get('lv1a'):          # pseudo level-1 columns next to the level-2 ones: the level-2 chain is what it is without them
+            over.update(lv1a=True)
         if a.get('band'):          # the energy window of the simulation may be wider than the band the response matrix tabulates
             over.update(emin=a['band'][0], emax=a['band'][1])
         simdrive.simulate(simdrive.config_path(a['config']), path, du_id=a['du'], seed=a['seed'], **over)
@@ -137,7 +139,7 @@ def o_tools(a):
     from ixpeobssim.bin.xpselect import xpselect, PARSER as SP
     g = numpy.random.default_rng(a['seed'])
     n = 3000
-    pi = g.integers(25, 300, n)
+    pi = g.integers(5, 372, n)            # measured energies over the whole channel range (0.2–14.9 keV), as with an unconvolved background
     t = numpy.sort(g.uniform(0., 1000., n))
     bad = []
     with scratch() as d:
@@ -190,13 +192,14 @@ def explore(chk, budget=1):
     corr_search(chk, g, sel[:3] if chk.tier == 'quick' else sel)
     run_oracle(chk, 'file', dict(config='toy_point_source.py', charging=False, du=int(g.integers(1, 4)), seed=int(g.integers(1, 10 ** 6)), duration=300.,
                                  band=(float(g.choice([0.5, 0.7])), float(g.choice([13., 14.5]))))) 
+    run_oracle(chk, 'file', dict(config='toy_point_source_bkg.py', charging=False, du=int(g.integers(1, 4)), seed=int(g.integers(1, 10 ** 6)), duration=300., lv1a=True))
     cfgs = [('toy_point_source.py', False), ('toy_point_source_bkg.py', False), ('toy_point_source.py', True)]
     if chk.tier != 'quick':
         cfgs += [('toy_multiple_sources.py', False), ('toy_disk.py', True)]
     for cfg, chrg in cfgs:
         for du in ((int(g.integers(1, 4)),) if chk.tier == 'quick' else (1, 2, 3)):
             run_oracle(chk, 'file', dict(config=cfg, charging=chrg, du=du, seed=int(g.integers(1, 10 ** 6)), duration=300.))
-    wins = [(2.0, 8.0), (2.01, 7.99), (3.01, 5.05), (2.49, 6.03), (4.0, 6.0)] + [tuple(sorted(numpy.round(g.uniform(1.5, 9., 2), 3))) for _ in range(3 * budget)]
+    wins = [(2.0, 8.0), (2.01, 7.99), (3.01, 5.05), (2.49, 6.03), (4.0, 6.0), (0.51, 2.0), (8.0, 12.0), (8.0, 13.6), (0.4, 1.0)] + [tuple(sorted(numpy.round(g.uniform(1.5, 9., 2), 3))) for _ in range(3 * budget)]
     wins = [(float(a), float(b)) for a, b in wins if b - a > 0.1]
     run_oracle(chk, 'tools', dict(seed=int(g.integers(1, 10 ** 6)), windows=wins))
 
